@@ -43,6 +43,10 @@ func (c02) Run(t *tape.Tape, tier Tier) *Result {
 	}
 	g := gen.New(t, cfg)
 	spec := g.Tree()
+	if t.Draw(1000) == 7 {
+		// rarely: a chain of many layers (limits that depend on depth)
+		spec = g.DeepChain(40 + t.Draw(40))
+	}
 	b := &gen.Builder{}
 	sim := world.NewSim(t)
 	sim.AddProcess(world.Full())
